@@ -338,11 +338,20 @@ class ResolveInfo:
         try:
             return self._directive_arguments[name]
         except KeyError:
-            args = self._directive_arguments[name] = directive_arguments(
-                self._context.schema.directives[name],
-                self.nodes[0],
-                self._context.variables,
-            )
+            try:
+                args = directive_arguments(
+                    self._context.schema.directives[name],
+                    self.nodes[0],
+                    self._context.variables,
+                )
+            except CoercionError as err:
+                # Same as the arguments of the field itself: a value which
+                # cannot be coerced at runtime (e.g. a nullable variable with a
+                # default explicitly set to null at a non-null position) is an
+                # error of this field, not a crash of the request.
+                raise ResolverError(str(err), nodes=err.nodes) from err
+
+            self._directive_arguments[name] = args
             return args
 
     def selected_fields(
